@@ -18,13 +18,19 @@ def make_ra(arr, nodata=NAN):
     return RasterArray(np.array(arr, dtype='float32', copy=True), synth.UTM, Affine(1, 0, 0, 0, -1, 0), nodata=nodata)
 
 
-def run_fit(model, kshape, find_r2, thresh, src, ref):
-    """Run KernelModel.fit; returns dict(params (bands,H,W) float32, norm (a,b))."""
+def run_fit(model, kshape, find_r2, thresh, src, ref, src_nodata=NAN):
+    """Run KernelModel.fit; returns dict(params (bands,H,W) float32, norm (a,b)).  `src_nodata`: how the source block stores its invalid
+    pixels (NaN, or a number that is not among its valid values) - the fit of a block must not depend on it."""
     from homonim.kernel_model import KernelModel
     km = KernelModel(model, tuple(kshape), find_r2=find_r2, r2_inpaint_thresh=thresh)
-    norm = KernelModel._fit_block_norm(make_ra(src), make_ra(ref))
+
+    def src_ra():
+        if isinstance(src_nodata, float) and math.isnan(src_nodata):
+            return make_ra(src)
+        return make_ra(np.where(np.isnan(src), src_nodata, src), nodata=src_nodata)
+    norm = KernelModel._fit_block_norm(src_ra(), make_ra(ref))
     with np.errstate(all='ignore'):
-        pra = km.fit(make_ra(src), make_ra(ref))
+        pra = km.fit(src_ra(), make_ra(ref))
     return dict(params=np.array(pra.array, dtype='float64'), norm=(float(norm[0]), float(norm[1])), mask=np.array(pra.mask))
 
 
@@ -245,7 +251,7 @@ def corr_cases(run, todo, name='fit', shard=40):
     """Run the real fit on every case dict of ``todo`` and the Gallina model inside Coq; returns (failing metas, nontrivial)."""
     cases, metas = [], []
     for c in todo:
-        out = run_fit(c['model'], c['kshape'], c['find_r2'], c['thresh'], c['src'], c['ref'])
+        out = run_fit(c['model'], c['kshape'], c['find_r2'], c['thresh'], c['src'], c['ref'], src_nodata=c.get('src_nodata', NAN))
         a, b = out['norm']
         if c['model'] == 'gain-blk-offset' and not (np.isfinite(a) and np.isfinite(b)):
             continue
